@@ -239,6 +239,17 @@ def step (cfg : Cfg) (s : State) : Ev → State
 
 def run (cfg : Cfg) (s : State) (evs : List Ev) : State := evs.foldl (step cfg) s
 
+/-- What the WebSocket reader does with a non-binary message (`decode_websocket_frame`): skip it and
+read on, or treat it as the end of the connection. -/
+inductive CtlAction where
+  | ignore | fail
+deriving DecidableEq, Repr
+
+/-- The reader receives a control / text message. -/
+def ctlStep (cfg : Cfg) (s : State) : CtlAction → State
+  | .ignore => s
+  | .fail => step cfg s .readErr
+
 /-- The failure path is safe against late callers: every plain `drainPending` happens when writes
 already fail or registrations are already refused (`guarded`), and the map is drained at least once
 (`drained`).  `closeAndDrain` guards and drains in one step. -/
